@@ -63,68 +63,15 @@ func c03GenFault(t *rapid.T, w *world.World, op *world.Op) world.Fault {
 var atomicAbortRe = regexp.MustCompile(`(?s)an error occurred while rolling back the release.*no \w+ with the name "[^"]+" found`)
 
 type c03Judge struct {
-	t       vt.TB
-	w       *world.World
-	ops     []*world.Op
-	trace   []string
-	everDep map[int]string          // revision -> manifest, observed with status deployed after some step
-	specOf  map[int]world.ChartSpec // revision -> chart spec that produced its manifest (rollbacks copy the target's)
+	t     vt.TB
+	w     *world.World
+	ops   []*world.Op
+	trace []string
+	*revTracker
 }
 
 func (j *c03Judge) fail(sig, detail string) bool {
 	return vt.Violation(j.t, sig, detail+"\n   "+traceOf(j.trace), map[string]interface{}{"backend": j.w.Backend.Kind, "ops": j.ops, "trace": j.trace})
-}
-
-// observe records which revisions were seen deployed and which spec each revision's manifest came from.
-func (j *c03Judge) observe(op *world.Op, res *world.Result) {
-	preSet, postSet := revSet(res.Pre), revSet(res.Post)
-	// forget revisions that no longer exist (purge, pruning): revision numbers restart after an uninstall
-	for v := range j.specOf {
-		if _, ok := postSet[v]; !ok {
-			delete(j.specOf, v)
-		}
-	}
-	for v := range j.everDep {
-		if _, ok := postSet[v]; !ok {
-			delete(j.everDep, v)
-		}
-	}
-	var created []int
-	for _, r := range res.Post {
-		if _, ok := preSet[r.Version]; !ok {
-			created = append(created, r.Version)
-		}
-	}
-	sort.Ints(created)
-	for i, c := range created {
-		delete(j.specOf, c)
-		delete(j.everDep, c)
-		if i == 0 && (op.Kind == "install" || op.Kind == "upgrade") {
-			j.specOf[c] = op.Chart
-		}
-	}
-	// revisions created by rollbacks (explicit, or the internal one of --atomic) copy a stored manifest: map by manifest text
-	for _, c := range created {
-		if _, ok := j.specOf[c]; ok {
-			continue
-		}
-		vs := make([]int, 0, len(j.specOf))
-		for v := range j.specOf {
-			vs = append(vs, v)
-		}
-		sort.Ints(vs)
-		for _, v := range vs {
-			if pr, ok := postSet[v]; ok && pr.Manifest == postSet[c].Manifest {
-				j.specOf[c] = j.specOf[v]
-				break
-			}
-		}
-	}
-	for _, r := range res.Post {
-		if r.Status == "deployed" {
-			j.everDep[r.Version] = r.Manifest
-		}
-	}
 }
 
 // clusterMatches checks C02(a) for the spec: every resource exists and manifest ⊑ live.
@@ -282,7 +229,7 @@ func (j *c03Judge) judge(op *world.Op, res *world.Result, preCluster map[string]
 
 func c03RunCase(tb vt.TB, backend string, ops []*world.Op) {
 	w := world.New(backend)
-	j := &c03Judge{t: tb, w: w, everDep: map[int]string{}, specOf: map[int]world.ChartSpec{}}
+	j := &c03Judge{t: tb, w: w, revTracker: newRevTracker()}
 	for _, op := range ops {
 		j.ops = append(j.ops, op)
 		preCluster := w.Cluster.Snapshot()
@@ -310,7 +257,7 @@ func c03Prop(t *rapid.T) {
 		maxOps = 9
 	}
 	nops := rapid.IntRange(1, maxOps).Draw(t, "nops")
-	j := &c03Judge{t: t, w: w, everDep: map[int]string{}, specOf: map[int]world.ChartSpec{}}
+	j := &c03Judge{t: t, w: w, revTracker: newRevTracker()}
 	lbl := map[string]bool{}
 	var fp []string
 	nontrivial := false
@@ -363,7 +310,7 @@ func c03Exhaust(j *c03Judge, backend string) {
 	last := ops[len(ops)-1]
 	replay := func() (*world.World, *c03Judge) {
 		w := world.New(backend)
-		jj := &c03Judge{t: j.t, w: w, everDep: map[int]string{}, specOf: map[int]world.ChartSpec{}}
+		jj := &c03Judge{t: j.t, w: w, revTracker: newRevTracker()}
 		for _, op := range ops[:len(ops)-1] {
 			jj.ops = append(jj.ops, op)
 			pc := w.Cluster.Snapshot()
